@@ -43,7 +43,23 @@ def corpus():
         "dev " + "|".join([m([b"STAT:QUES:ENAB 32768"]), "cq:32768", m([b"*STB?"]), m([b"STAT:QUES:ENAB 16384"]), "cq:49152", m([b"*SRE 8;*STB?"])]),
         "dev " + "|".join([m([b"*OPC;*ESR?;*OPC?"]), m([b"SYST:ERR:ALL?"]), "t:p-330", m([b"*TST?"]), "t:N", m([b"*TST?;*RST;*WAI;*STB?"])]),
         "dev " + "|".join([m([b"*ESE 255;*SRE 255;*ESE?;*SRE?"]), m([b"*ESE 0;*SRE 0;*ESE?;*SRE?"]), m([b"*ESE 256"]), m([b"*SRE -1"]), m([b"*ESE?;*SRE?"])]),
-    ]
+        "dev " + "|".join([m([b"*OPC"]), m([b"*RST"]), m([b"*ESR?"]), m([b"*ESE 1;*SRE 32;*OPC"]), m([b"*RST;*WAI"]), m([b"*STB?"]), m([b"*OPC;*OPC"]), m([b"SYST:ERR:COUN?"])]),
+    ] + stb_matrix()
+
+
+def stb_matrix():
+    """every reported bit alone x every SRE mask that enables it alone / all / all but it / none x MAV both ways"""
+    m = statuslib.msg_step
+    out = []
+    sources = {7: [m([b"STAT:OPER:ENAB 1"]), "co:1"], 3: [m([b"STAT:QUES:ENAB 4"]), "cq:4"], 5: [m([b"*ESE 32"]), m([b"FOO"]), m([b"SYST:ERR?"])],
+               2: [m([b"FOO"])], 0: []}
+    for bit, setup in sources.items():
+        steps = list(setup)
+        for sre in ([1 << bit, 255, 255 ^ (1 << bit), 0, 16, 64] if bit else [16, 0, 255]):
+            steps.append(m([b"*SRE %d" % sre]))
+            steps.append(m([b"*STB?"], mav=False)); steps.append(m([b"*STB?"], mav=True)); steps.append(m([b"*SRE?;*STB?;*STB?"], mav=True))
+        out.append("dev " + "|".join(steps))
+    return out
 
 
 def generate(rng, tier):
